@@ -54,7 +54,7 @@ CLAIMED = {
  "C06": dict(cat="other", ref="DESIGN.md 4/C06",
    text="One symbolic batch of the real per-worker loop (nested my_function located by name, free variables symbolic): file position before each write, rows == kept range with the documented taper margins, sync columns bit-identical, "
         "saturation slice, RMS/timestamp positions, loop invariant position == f(batch index), padding; the worker's start batch and boundary formulas; lemmas: batches tile [0,ns), consecutive workers leave no gap, writes are position-determined.",
-   note="All filtering is opaque (shapes only); saturation() through C16's contract; joblib schedules are not modelled (position-determinism is what is proved); byte identity across worker counts / QC lengths via the bounded stand-in with a NumPy/SciPy shim for pyfftw. Known finding F-C06-1 (phantom batch).",
+   note="All filtering is opaque (shapes only); saturation() through C16's contract; joblib schedules are not modelled (position-determinism is what is proved); byte identity across worker counts (incl. more workers than batches) / QC lengths via the bounded stand-in with a NumPy/SciPy shim for pyfftw. F-C06-1 (phantom batch) was repaired: a worker whose first batch is not real returns at once, proved to touch nothing and to lose nothing.",
    tech="AST->z3 VC generation on a nested closure with ghost file positions + arithmetic lemmas (deductive) + bounded native stand-in"),
  "C02": dict(cat="other", ref="DESIGN.md 4/C02",
    text="Ghost-file-system contracts: companion resolution for data / compressed / metadata paths under every combination of existing files; compress_file, decompress_file, decompress_to_scratch with a normal and an exceptional outcome of mtscomp: "
